@@ -37,6 +37,15 @@ func c01Config(rig *tRig, cfg int) {
 		ts.LevelTrigger, ts.LevelRising = true, true
 		ts.LevelLevel = RawType(vSymU16("levelLevel"))
 		chans = []int{0, 1}
+	case 7, 8, 9: // edge-multi: variable-length, two-full-length, full-length-isolated records
+		ts = c08State(cfg-7+0, false, 1)
+		if cfg == 7 {
+			ts = c08State(1, false, 1)
+		} else if cfg == 8 {
+			ts = c08State(0, false, 1)
+		} else {
+			ts = c08State(2, false, 1)
+		}
 	}
 	if ts.EdgeTrigger {
 		vAssume(ts.EdgeLevel >= 1)
@@ -67,13 +76,22 @@ func verifC01Stream() {
 	if cfg == 6 && total > vParam("cap6", 7) {
 		vAssume(false) // both channels triggering squares the number of paths: shorter streams only
 	}
+	if cfg >= 7 && total > vParam("cap7", 8) {
+		vAssume(false) // edge-multi forks at nearly every sample: short streams only here (long ones in C08)
+	}
 	c01Config(rig, cfg)
 	nrec := 0
 	for b := 0; b < nblocks; b++ {
 		rig.feed(lens[b])
 		for _, batch := range rig.batches {
 			for _, rec := range batch {
-				rig.checkExcerpt(rec, npre, nsamp)
+				if cfg == 7 {
+					// variable-length edge-multi records: whatever lengths they declare must be true
+					vCheck(rec.presamples >= 0 && rec.presamples <= npre && len(rec.data) <= nsamp, "variable-length record within the configured lengths")
+					rig.checkExcerpt(rec, rec.presamples, len(rec.data))
+				} else {
+					rig.checkExcerpt(rec, npre, nsamp)
+				}
 				nrec++
 			}
 		}
